@@ -112,7 +112,10 @@ def gen(rng, scenario, tier):
                 continue
             if rng.random() < (0.2 if j == 0 else 0.06):
                 if k == "batch":
-                    e[0] = [[round(v * 8) / 8 for v in row] for row in e[0]]
+                    grid = [[round(v * 8) / 8 for v in row] for row in e[0]]
+                    if name == "NNDVI" and len({tuple(r) for r in grid}) < 6:
+                        continue     # small-scale data collapse to a handful of grid points: outside NN-DVI's domain (k-NN needs k distinct points)
+                    e[0] = grid
                     e[1] = "nd_f32"
                 else:
                     e[0] = [round(v * 8) / 8 for v in e[0]]
